@@ -4,13 +4,19 @@
    half-open intervals [ib1, ib2) exactly as in the code. *)
 EXTENDS Integers, Sequences, FiniteSets, TLC, SequencesExt, FiniteSetsExt
 
-(* grid/tetrahedron.py get_borders, utility.py find_degen (degen_Kramers = FALSE) *)
-BorderSet(E, th, kr) ==
+(* grid/tetrahedron.py get_borders, utility.py find_degen (degen_Kramers = FALSE).
+   Kramers mode keeps the even borders and the final border Len(E): with an odd number of bands the last band stays in a
+   group (of odd size).  keeplast = FALSE is the behaviour before the repair 69ca1f4e (the odd final border was dropped and
+   the highest band belonged to no group): kept as the named must-fail variant BordersDropOddFinal. *)
+BorderSetV(E, th, kr, keeplast) ==
    LET b == {0, Len(E)} \cup {i \in 1..(Len(E) - 1) : E[i + 1] - E[i] > th}
-   IN IF kr THEN {i \in b : i % 2 = 0} ELSE b
-Borders(E, th, kr) ==
-   LET s == SetToSortSeq(BorderSet(E, th, kr), <)
+   IN IF kr THEN {i \in b : i % 2 = 0 \/ (keeplast /\ i = Len(E))} ELSE b
+BorderSet(E, th, kr) == BorderSetV(E, th, kr, TRUE)
+BordersOf(bs) ==
+   LET s == SetToSortSeq(bs, <)
    IN [j \in 1..(Len(s) - 1) |-> <<s[j], s[j + 1]>>]
+Borders(E, th, kr) == BordersOf(BorderSet(E, th, kr))
+BordersDropOddFinal(E, th, kr) == BordersOf(BorderSetV(E, th, kr, FALSE))
 
 (* what C15 demands of a list of groups G for energies E *)
 IsPartition(E, G) ==
@@ -21,9 +27,11 @@ InternalGapsSmall(E, G, th) ==
    \A j \in 1..Len(G) : \A i \in (G[j][1] + 1)..(G[j][2] - 1) : E[i + 1] - E[i] <= th
 BoundaryGapsLarge(E, G, th) ==
    \A j \in 1..(Len(G) - 1) : E[G[j][2] + 1] - E[G[j][2]] > th
-BoundariesEven(G) == \A j \in 1..Len(G) : G[j][1] % 2 = 0 /\ G[j][2] % 2 = 0
-(* Kramers mode presupposes paired input: E[2i+1] and E[2i+2] (1-based) within the threshold *)
-KramersPaired(E, th) == Len(E) % 2 = 0 /\ \A i \in 1..(Len(E) \div 2) : E[2 * i] - E[2 * i - 1] <= th
+(* G sorted: every boundary is even, except the final one (= number of bands) when that is odd *)
+BoundariesEven(G) == \A j \in 1..Len(G) : G[j][1] % 2 = 0 /\ (G[j][2] % 2 = 0 \/ j = Len(G))
+(* Kramers mode presupposes paired input: E[2i-1] and E[2i] (1-based) within the threshold; with an odd number of bands
+   the highest band has no partner *)
+KramersPaired(E, th) == \A i \in 1..(Len(E) \div 2) : E[2 * i] - E[2 * i - 1] <= th
 (* with Kramers pairs the block boundaries are exactly the even positions whose gap exceeds the threshold *)
 KramersMaximal(E, G, th) ==
    {G[j][2] : j \in 1..(Len(G) - 1)} = {i \in 1..(Len(E) - 1) : i % 2 = 0 /\ E[i + 1] - E[i] > th}
